@@ -37,14 +37,17 @@ HFLAGS = ["-std=c++20", "-O0", "-g", "-fsanitize=address,undefined", "-fno-sanit
           "-fno-omit-frame-pointer", "-Wno-deprecated-declarations"]
 MODES = (("0", "-DTETL_ENABLE_CONTRACT_CHECKS=1", "c05_harness_checks"),
          ("1", "-DTETL_ENABLE_CONTRACT_CHECKS_SAFE=1", "c05_harness_safe"))
-RULE = ("every operation of the modelled families (static_vector with trivial / non-trivial / zero storage, inplace_vector, "
+RULE = ("every operation of the modelled families (static_vector with trivial / non-trivial / zero storage incl. the public move_insert "
+        "and, driven directly through a derived class / an explicit-instantiation member pointer, the inner unsafe_set_size / unsafe_destroy "
+        "members of the storage classes, inplace_vector and inplace_string; inplace_vector incl. inplace_vector<T, 0>, "
         "string_view, span, array incl. array<T, 0>, inplace_string incl. insert / erase by index, optional/expected/variant, "
-        "bitset/basic_bitset, bit functions, div_sat, chrono day/month, mdspan stride of layout_left / layout_right / layout_stride, "
+        "bitset/basic_bitset incl. to_ulong / to_ullong of bitset<5, 11, 40, 64, 65, 70, 130> (fitting and overflowing values), bit functions, div_sat, chrono day/month, mdspan stride of layout_left / layout_right / layout_stride, "
         "C string null checks, static_set range constructor, linalg add / copy / swap_elements / matrix_vector_product extents "
         "checks, to_string<Capacity>) x every size 0..capacity of the "
         "small capacities (1,3,4 and, for the narrow size field, 255 and 256 at sizes capacity-1 and capacity; strings 4 and 20; bitsets 5 and 11; arrays 0,1,3; linalg extents 0..3) x every index / position / count in "
         "{-1 (iterators), 0 .. size+2, capacity+1, 2^31, 2^32, 2^63-1, 2^63, 2^64-2, 2^64-1} x const / ref-qualified overload x "
-        "both configurations (TETL_ENABLE_CONTRACT_CHECKS, ..._SAFE); element values from the seeded PRNG; thorough adds more "
+        "both configurations (TETL_ENABLE_CONTRACT_CHECKS, ..._SAFE); every 5th line on an owning container also on the same state "
+        "reached through insert/erase, pop/push or grow-and-cut-back (hist=1..3); element values from the seeded PRNG; thorough adds more "
         "contents per size and random argument mixes.  Each line runs in a forked child.  Non-trivial: the call violates the "
         "documented precondition (the handler must run) or the object is non-empty (a valid call that must not fire); "
         "distinct = distinct case text.")
@@ -56,24 +59,32 @@ ASSUMPTIONS = ["the oracle column is computed in the harness from the documented
                "checked in both configurations",
                "inplace_string::insert is driven with units that fit (size + count <= capacity): insert clamps silently otherwise "
                "(tetl's truncating append, a subject of C04, not a contract check)",
-               "linalg and to_string are modelled by their checks only (the element loops / the digits are not compared)"]
+               "linalg and to_string are modelled by their checks only (the element loops / the digits are not compared)",
+               "to_ulong / to_ullong: unsigned long and unsigned long long both have 64 digits on this platform (LP64; the harness "
+               "rejects the case line otherwise); the Lean theorem holds for every digits value",
+               "the inner 'unsafe' members are driven with a new size within the constructed elements or beyond the capacity (a size in "
+               "between exposes unconstructed storage, which neither model nor harness can read back) and unsafe_destroy with an empty "
+               "range or a violating pointer"]
 TRUSTED = ["gen/sites.py (text-level extractor of the check sites; its inventory is cross-checked on every run against the "
            "file:line the real handler reports for each driven site)",
            "hand models Tetl/C05/Model.lean tied to the source by the correspondence run (R1) in both configurations",
            "fork + custom etl::assert_handler + ASan/UBSan as the observer of 'handler before damage'"]
 SEARCH_CAP = 400000
 CLAIMED = True
-TECHNIQUE = ("Lean 4 proof, for each of the 78 operation schemas of the model language (none is compared only): guard-carrying model = "
+TECHNIQUE = ("Lean 4 proof, for each of the 84 operation schemas of the model language (none is compared only): guard-carrying model = "
              "documented-precondition spec for all states and arguments; check-site inventory regenerated from the headers on every run "
              "and compared in the kernel; fork-per-call correspondence run in both contract-check configurations; hand-made inventory "
              "of documented preconditions that have no check at all")
 LEVEL_TEXT = ("Every TETL_PRECONDITION / _SAFE / TETL_ASSERT site of the current headers is re-extracted on every run; a kernel-checked "
               "theorem states that this inventory is exactly the list of guards carried by the Lean models (plus the two sites inside "
-              "format_to, which no public call can reach).  For EVERY operation schema of the model language (Proved_all: 78 schemas - "
-              "static_vector element access / front / back / push / emplace_back / pop / clear / insert x4 / emplace / range insert / "
-              "erase x2 / resize x2 / assign x2 / the three sized constructors over its three storage classes; inplace_vector; "
+              "format_to, which no public call can reach; unmodelled_count = 2).  For EVERY operation schema of the model language (Proved_all: 84 schemas - "
+              "static_vector element access / front / back / push / emplace_back / pop / clear / insert x4 / emplace / range insert / move_insert / "
+              "erase x2 / resize x2 / assign x2 / the three sized constructors over its three storage classes, and the storage's "
+              "unsafe_set_size / unsafe_destroy; inplace_vector incl. the inplace_vector<T, 0> specialisation and unsafe_set_size; "
               "string_view; span; array; inplace_string constructors / assign / push / pop / erase (iterator and index) / insert / "
-              "replace; optional / expected / variant access; bitset and basic_bitset accessors and the string constructor; bit "
+              "replace / unsafe_set_size; optional / expected / variant access; bitset and basic_bitset accessors, the string constructor and "
+              "to_ulong / to_ullong (the two loops of to_unsigned_type with the checks of test() and set_bit() they go through, against "
+              "[bitset.members] 'overflow_error iff the value cannot be represented', for every width and every digits); bit "
               "functions, div_sat, chrono day/month, mdspan stride, C string null checks, static_set range constructor, linalg "
               "extents checks, to_string; 12 of them are 'checks only' models - C string null checks, linalg, to_string, static_set range "
               "constructor, mdspan stride: the code after the checks is not modelled, the theorem says which clause fires first) Lean proves, for every capacity, object and argument "
@@ -86,12 +97,16 @@ LEVEL_TEXT = ("Every TETL_PRECONDITION / _SAFE / TETL_ASSERT site of the current
 LEVEL_NOTE = ("Trusted: Lean kernel + propext/Classical.choice/Quot.sound; the text-level site extractor; the hand models' "
               "fidelity outside the explored inputs; g++-12/ASan/UBSan/fork as observer.  Well-formedness hypotheses of run_eq_expect "
               "(Tetl.C05.Props.WF): class invariant, capacity < 2^64, storage class matches the capacity, fresh object for constructors, "
-              "inserted units fit, replace outside the known-finding class, bit position a value of the word type, div_sat operands int.  "
+              "inserted units fit, replace outside the known-finding class, bit position a value of the word type, div_sat operands int, "
+              "the directly driven unsafe_set_size members with a new size within the constructed elements or beyond the capacity and "
+              "unsafe_destroy with an empty range or a violating pointer; to_ulong / to_ullong need no hypothesis.  "
               "NOT detected by this method: an operation that documents a precondition but has no check at all is in no regenerated "
               "inventory; the hand-made list coverage.documented_preconditions_without_check (built from the \\pre comments and the "
-              "standard's preconditions of the modelled families, each probed) records the ones found - 4 groups fixed, 7 open (array "
+              "standard's preconditions of the modelled families, each probed) records the ones found - 5 groups fixed, 7 open (array "
               "operator[] outside SAFE, mdspan element access and extents::extent, optional/expected operator->, the silently clamping "
-              "string members, format_to).  The 'documented precondition' of Spec.lean is taken from the \\pre comment or the standard, not "
+              "string members, format_to; fixed on this branch: the inplace_vector<T, 0> members).  Every site except the two of format_to is fired by "
+              "a generated violating call on every run (coverage.sites_never_fired); the inner sites that the outer documented preconditions "
+              "imply (unsafe_set_size x5, unsafe_destroy x2) are reached by calling those protected / private members directly.  The 'documented precondition' of Spec.lean is taken from the \\pre comment or the standard, not "
               "from the condition text (chrono day/month: 255 is valid).  The two sites inside format_to are inventoried "
               "(sites_accounted) but not driven: format_to does not compile for any public output iterator (evidence coverage.unmodelled_sites).")
 # Inventory of operations of the modelled families that have a precondition in the documentation (`\\pre`) or in the
@@ -105,6 +120,7 @@ UNCHECKED_INVENTORY = [
     {"op": "span<T, N>(first, count), span<T, N>(range), span<T, N>(span<U, dynamic_extent>)", "std": "[span.cons] count == extent", "status": "fixed (F-C05-span-template-members-unchecked)"},
     {"op": "array<T, 0>::front(), back(), operator[]", "std": "[array.zero] undefined", "status": "fixed (F-C05-array-zero-size-unchecked)"},
     {"op": "basic_inplace_string::insert(index, ...), erase(index, count)", "std": "[string.insert]/[string.erase] index <= size() (out_of_range)", "status": "fixed (F-C05-string-insert-index-unchecked)"},
+    {"op": "inplace_vector<T, 0>::front(), back(), operator[], unchecked_push_back(), unchecked_emplace_back(), pop_back()", "std": "[inplace.vector] !empty() / n < size() / size() < capacity() (always violated)", "status": "fixed (F-C05-inplace-vector-zero-unchecked)"},
     {"op": "array<T, N>::operator[] (N > 0) in the TETL_ENABLE_CONTRACT_CHECKS configuration", "std": "[sequence.reqmts] n < size()", "status": "open: TETL_PRECONDITION_SAFE by design (the library's 'all/slow assertions' level); checked and proved for the SAFE configuration only"},
     {"op": "mdspan::operator()/operator[], layout_left/right/stride::mapping::operator()(indices...)", "std": "[mdspan.mdspan.members] indices form a multidimensional index in extents()", "status": "open: no check in either configuration (element access, same policy as array::operator[]); ASan heap-buffer-overflow on mdspan<int, extents<int,1,3>>(p)(0, 5)"},
     {"op": "extents::extent(r), static_extent(r)", "std": "[mdspan.extents.obs] r < rank()", "status": "open: no check; extent(5) of a rank-2 extents reads an unrelated value"},
@@ -116,20 +132,28 @@ UNCHECKED_INVENTORY = [
 # operations modelled and compared on every run whose equation model = spec is not (yet) a Lean theorem: none
 CORRESPONDENCE_ONLY = []
 UNPROVED_OBSERVED = ["the two check sites inside format_to / format_escaped_sequences are inventoried (sites_accounted) but have no model "
-                     "operation and are not driven: etl::format_to(out, fmt, args...) constructs format_context{out}, which only accepts "
+                     "operation and are not driven (the only 2 of the inventoried sites that no generated call fires): "
+                     "etl::format_to(out, fmt, args...) constructs format_context{out}, which only accepts "
                      "back_insert_iterator<detail::fmt_buffer<char>> - it does not compile for char*, back_inserter(inplace_string) or any "
                      "other public output iterator, and detail::fmt_buffer keeps a pointer to its by-value constructor parameter "
                      "(ASan: stack-buffer-overflow on first use)",
                      "the non-random-access branch of static_vector::insert(pos, first, last) / move_insert / assign / the range constructor "
                      "(no size check before the loop) cannot be instantiated: assert_valid_iterator_pair static_asserts is_pointer_v on the "
-                     "iterators, so only pointers (random access) compile; it has no model",
-                     "not covered: inplace_vector<T, 0>; objects after erase/insert as pre-states (states are built by push_back); the "
-                     "valid streams of the other properties are not re-run in the contract-check builds (DESIGN §4 C05)",
-                     "inner guards that the outer documented precondition implies (unsafe_set_size, unsafe_destroy, move_insert's capacity "
-                     "check, inplace_vector::unsafe_set_size, unsafe_at) never fire on the explored inputs; that they cannot fire is "
-                     "part of run_eq_expect"]
+                     "iterators, so only pointers (random access) compile (probed with an etl-tagged forward iterator: static assertion failed "
+                     "for insert / assign / the range constructor / move_insert); it has no model",
+                     "not covered: the valid streams of the other properties are not re-run in the contract-check builds (DESIGN §4 C05); "
+                     "pre-states are built by push_back and, for every 5th line on static_vector / inplace_vector / inplace_string, "
+                     "additionally through insert+erase, pop+push or grow-and-cut-back - not through arbitrary operation histories",
+                     "inner guards that the outer documented precondition implies (the storage's unsafe_set_size / unsafe_destroy, "
+                     "inplace_vector::unsafe_set_size, inplace_string::unsafe_set_size, test() / unchecked_test() / set_bit() "
+                     "inside to_unsigned_type) never fire through the public members: that they cannot is part of run_eq_expect for "
+                     "the modelled members; for the unmodelled callers of the private inplace_string::unsafe_set_size (append, resize, "
+                     "swap, clear) it was read off the source (every argument is a size() of a same-capacity string or clamped to "
+                     "capacity()).  The sites themselves are fired by calling the protected / private members directly "
+                     "(sv.unsafe_set_size, sv.unsafe_destroy, iv.unsafe_set_size, str.unsafe_set_size)"]
 THEOREMS = {"*": ["Tetl.C05.Props.sites_accounted", "Tetl.C05.Props.run_eq_expect", "Tetl.C05.Props.violation_asserts",
-                  "Tetl.C05.Props.valid_never_asserts", "Tetl.C05.Props.Proved_all", "Tetl.C05.Props.replace_valid_partial"]}
+                  "Tetl.C05.Props.valid_never_asserts", "Tetl.C05.Props.Proved_all", "Tetl.C05.Props.replace_valid_partial",
+                  "Tetl.C05.Props.toUnsigned_fits", "Tetl.C05.Props.toUnsigned_overflow", "Tetl.C05.Props.toUnsigned_representable_iff"]}
 
 U63, U64 = 2 ** 63, 2 ** 64
 BIG = [2 ** 31, 2 ** 32, U63 - 1, U63, U64 - 2, "npos"]
@@ -191,11 +215,22 @@ def generate(tier, seed):
                         for m in range(0, cap + 3):
                             xs = content(m, 20, 60)
                             add("sv.insert_rng %s p=%d xs=%s ord=1" % (h, p, fl(xs)))
+                            add("sv.move_insert %s p=%d xs=%s ord=1" % (h, p, fl(xs)))     # the public member, called directly
                             if m >= 1 and p in (0, n):
                                 add("sv.insert_rng %s p=%d xs=%s ord=0" % (h, p, fl(xs)))
+                                add("sv.move_insert %s p=%d xs=%s ord=0" % (h, p, fl(xs)))
                         add("sv.erase %s p=%d" % (h, p))
                         for q in ((0,) if T == "zero" else range(-1, n + 3)):
                             add("sv.erase_rng %s f=%d l=%d" % (h, p, q))
+                    # the protected "unsafe" members of the storage base, driven through a derived class: a new size within the
+                    # constructed elements (valid) or beyond the capacity (the inner check must fire)
+                    for m in list(range(0, n + 1)) + [cap + 1, cap + 2] + BIG:
+                        add("sv.unsafe_set_size %s n=%s" % (h, m))
+                    if T == "nontriv":
+                        for f in range(-1, n + 3):
+                            for la in range(-1, n + 3):
+                                if not (0 <= f <= n and 0 <= la <= n) or f == la:
+                                    add("sv.unsafe_destroy %s f=%d l=%d" % (h, f, la))
                     for m in list(range(0, cap + 3)) + BIG:
                         add("sv.resize %s n=%s" % (h, m))
                         add("sv.resize_v %s n=%s v=%d" % (h, m, v))
@@ -228,8 +263,8 @@ def generate(tier, seed):
                 for m in (0, 1, 254, 255, 256, 257, 300):
                     add("sv.resize %s n=%d" % (h, m))
                     add("sv.assign_n %s n=%d v=%d" % (h, m, v))
-        # ---- inplace_vector
-        for cap in (1, 3, 4):
+        # ---- inplace_vector (capacity 0: the specialisation inplace_vector<T, 0>, always empty and full)
+        for cap in (0, 1, 3, 4):
             for n in range(cap + 1):
                 h = "cap=%d e=%s" % (cap, fl(content(n)))
                 v = rnd.randint(10, 99)
@@ -241,6 +276,8 @@ def generate(tier, seed):
                     add("iv.push %s v=%d k=%d" % (h, v, k))
                 add("iv.emplace_back %s v=%d" % (h, v))
                 add("iv.pop %s" % h)
+                for m in (list(range(0, n + 1)) + [cap + 1, cap + 2] + BIG) if cap else ():     # the private member (explicit-instantiation access)
+                    add("iv.unsafe_set_size %s n=%s" % (h, m))
         # ---- string_view / span
         for n in range(0, 5):
             e = content(n, 97, 122)
@@ -291,6 +328,8 @@ def generate(tier, seed):
                         add("str.at %s a=%s k=%d" % (h, i, k))
                 add("str.push %s v=%d" % (h, rnd.randint(97, 122)))
                 add("str.pop %s" % h)
+                for m in sorted(set(range(0, n + 1)) if cap == 4 else {0, n // 2, n}) + [cap + 1, cap + 2] + BIG:
+                    add("str.unsafe_set_size %s a=%s" % (h, m))
                 for m in sorted({0, 1, n, cap - 1, cap, cap + 1, cap + 2}) + BIG:
                     if isinstance(m, int) and m >= 0:
                         add("str.assign_fill %s a=%s v=%d" % (h, m, rnd.randint(97, 122)))
@@ -353,6 +392,20 @@ def generate(tier, seed):
             for pos in idxs(n):
                 for cnt in (0, 1, 3, n, "npos"):
                     add("bs.ctor e=%s pos=%s n=%s" % (fl(e), pos, cnt))
+        # ---- to_ulong (w=0) / to_ullong (w=1): both result types have 64 digits on this platform (LP64; the harness rejects
+        # the line otherwise).  Widths below, at and above 64; the value fits (no bit at a position >= 64) or does not.
+        for cap in (5, 11, 40, 64, 65, 70, 130):
+            pats = [[0] * cap, [1] * cap, content(cap, 0, 1)]
+            low = content(min(cap, 64), 0, 1) + [0] * max(0, cap - 64)
+            pats.append(low)
+            for i in sorted({0, 31, 32, 63, 64, 65, cap - 1, rnd.randrange(cap)}):
+                if i < cap:
+                    pats.append([1 if j == i else 0 for j in range(cap)])
+                    if i >= 64:
+                        pats.append([1 if j == i else b for j, b in enumerate(low)])
+            for e in pats:
+                for w in (0, 1):
+                    add("bs.to_u cap=%d e=%s w=%d d=64" % (cap, fl(e), w))
         # ---- scalars
         for w in (8, 16, 32, 64):
             top = 2 ** w
@@ -396,13 +449,20 @@ def generate(tier, seed):
             if xs:
                 add("set.ctor xs=%s ord=0" % fl(xs))
     cases = []
-    for line, tag in base:
+    for idx, (line, tag) in enumerate(base):
         for mode in ("0", "1"):
             if tag.endswith("!safe") and mode == "0":
                 continue
             t = tag.replace("!safe", "")
             cases.append(Case(line + " safe=" + mode, t))
             dist[t] = dist.get(t, 0) + 1
+        # histories: every 5th line on an owning container also runs on the same abstract state reached through
+        # insert/erase (1), pop/push (2), grow and cut back (3) - the harness applies these valid calls before the case
+        fam = line.split(".")[0]
+        if fam in ("sv", "iv", "str") and idx % 5 == 0 and " e=" in line and "unsafe" not in line and "T=zero" not in line:
+            hist = 1 + (idx // 5) % (2 if fam == "iv" else 3)
+            cases.append(Case(line + " hist=%d safe=%d" % (hist, (idx // 5) % 2), tag + "+hist"))
+            dist[tag + "+hist"] = dist.get(tag + "+hist", 0) + 1
     return cases, False, dist
 
 
